@@ -51,10 +51,9 @@ class GMRF(CallableModel):
         self.precision = precision
         self.rescale = rescale
 
-    def _call(self, *args, **kwargs) -> torch.Tensor:
-        diff_square = torch.pow(
-            self.field.tensor[..., :-1] - self.field.tensor[..., 1:], 2.0
-        )
+    def _difference_scales(self):
+        """Factors multiplying the squared differences of neighbouring field values
+        (None for the plain GMRF)."""
         if self.tree_model is not None:
             heights = torch.cat(
                 (
@@ -70,11 +69,21 @@ class GMRF(CallableModel):
             indices = torch.argsort(heights, descending=False)
             heights_sorted = torch.gather(heights, -1, indices)
             durations = heights_sorted[..., 1:] - heights_sorted[..., :-1]
-            diff_square /= (durations[..., :-1] + durations[..., 1:]) / 2.0
+            scales = 2.0 / (durations[..., :-1] + durations[..., 1:])
             if self.rescale:
-                diff_square *= heights_sorted[..., -1:]
+                scales = scales * heights_sorted[..., -1:]
+            return scales
         elif self.weights is not None:
-            diff_square /= self.weights
+            return 1.0 / self.weights
+        return None
+
+    def _call(self, *args, **kwargs) -> torch.Tensor:
+        diff_square = torch.pow(
+            self.field.tensor[..., :-1] - self.field.tensor[..., 1:], 2.0
+        )
+        scales = self._difference_scales()
+        if scales is not None:
+            diff_square = diff_square * scales
 
         dim = self.field.shape[-1] - 1.0  # field dim
         precision = self.precision.tensor
@@ -95,14 +104,21 @@ class GMRF(CallableModel):
             dtype=self.field.dtype,
             device=self.field.device,
         )
+        # precision of each squared difference (weights and time-aware scaling
+        # included, as in _call)
+        edges = precision.expand(self.field.shape[:-1] + (dim - 1,))
+        scales = self._difference_scales()
+        if scales is not None:
+            edges = edges * scales
         precision_matrix[..., range(dim - 1), range(1, dim)] = precision_matrix[
             ..., range(1, dim), range(dim - 1)
-        ] = -precision.expand(self.field.shape[:-1] + (dim - 1,))
+        ] = -edges
 
-        precision_matrix[..., range(1, dim - 1), range(1, dim - 1)] = 2.0 * precision
-        precision_matrix[..., 0, 0] = precision_matrix[
-            ..., (dim - 1), (dim - 1)
-        ] = precision.squeeze(-1)
+        precision_matrix[..., range(1, dim - 1), range(1, dim - 1)] = (
+            edges[..., :-1] + edges[..., 1:]
+        )
+        precision_matrix[..., 0, 0] = edges[..., 0]
+        precision_matrix[..., (dim - 1), (dim - 1)] = edges[..., -1]
         return precision_matrix
 
     @classmethod
